@@ -74,6 +74,12 @@ Fold(c, k, s) ==
          ELSE IF On({"C07"}) /\ (s.ce /\ s.open = {} /\ s.wb /\ ~s.we) THEN Bad(k, "C07: Wait has not returned although every started task has returned")
          ELSE IF On({"C07"}) /\ (s.ce /\ e.g > Cardinality(s.open)) THEN Bad(k, "C07: more lane goroutines left than tasks still running")
          ELSE Fold(c, k + 1, s)
+    [] e.e = "burst.summary" ->        \* totals of a scenario recorded without per-step events: g accepted, b started, t started twice
+         IF On({"C14"}) /\ (e.pend # e.g - e.b) THEN Bad(k, "C14: at rest PendingTask differs from the number of accepted-but-not-started tasks")
+         ELSE IF On({"C14"}) /\ (e.pend > c.n * (c.q + 1)) THEN Bad(k, "C14: PendingTask above laneSize x (queueSize+1)")
+         ELSE IF On({"C06"}) /\ (e.t > 0) THEN Bad(k, "C06: a task was started twice")
+         ELSE IF On({"C06", "C08"}) /\ (e.b < e.g) THEN Bad(k, "C06/C08: stable state with an idle worker and an accepted task that was never started")
+         ELSE Fold(c, k + 1, s)
     [] e.e = "unstable" -> <<k, "INFRA: no stable state reached">>
     [] OTHER -> Fold(c, k + 1, s)
 
